@@ -694,7 +694,7 @@ fn drain(f: &Facts) -> Result<(), String> {
 }
 
 fn outcome(p: &Program, h: &History, m: &Explored) -> Result<(), String> {
-    let o = crate::hist::outcome_of(h);
+    let o = crate::hist::outcome_with_wakes(h, p.threads.len() == 1);
     if m.outcomes.contains(&o) {
         return Ok(());
     }
@@ -711,11 +711,11 @@ fn outcome(p: &Program, h: &History, m: &Explored) -> Result<(), String> {
             alts.sort();
             alts.dedup();
             return Err(format!(
-                "results {:?}: no atomic execution of the reference channel produces them; given the other results, thread {} op {} ({:?}) returned {:?} where the model allows only {}",
+                "results {:?}: no atomic execution of the reference channel produces them; given the other results, thread {} op {} ({:?}; thread 999 = wake counters of the counting wakers) returned {:?} where the model allows only {}",
                 o.iter().map(|x| format!("t{}#{}={:?}", x.0, x.1, x.2)).collect::<Vec<_>>(),
                 e.0,
                 e.1,
-                p.threads[e.0].ops[e.1],
+                p.threads.get(e.0).and_then(|t| t.ops.get(e.1)),
                 (&e.2, e.3),
                 alts.join(" | ")
             ));
